@@ -46,6 +46,7 @@ func rulesC11(c *Ctx) {
 	ruleLockOrder(c, "server")
 	ruleEntryImmutability(c)
 	ruleElectionWriters(c)
+	ruleElectionAtomic(c)
 }
 
 // chanUse summarises how a channel-typed variable is used in a function and its callees.
@@ -295,4 +296,74 @@ func ruleEntryImmutability(c *Ctx) {
 	}
 	c.Sites += n
 	c.check(len(bad) == 0, rule, "server+rib", "no in-place field store to an AFT entry struct", "-", fmt.Sprintf("%d field stores examined in code reachable from the RPC roots, none into aft.Afts_* structs", n), "an installed AFT entry is modified in place (outside the delete-then-merge install): "+strings.Join(bad, ", "))
+}
+
+// ruleElectionAtomic (C05 R5.2 / C11): the election's read-compare-write is one
+// exclusive section — the current id handed to the comparison is loaded, and
+// both stores happen, under the same exclusive acquisition of the election lock.
+func ruleElectionAtomic(c *Ctx) {
+	const rule = "ATOMIC-COMPARE-AND-SET"
+	fi := c.need("server", "Server", "runElection")
+	if fi == nil || fi.SSA == nil {
+		return
+	}
+	la := c.P.locks()
+	fl := la.fns[fi.SSA]
+	if fl == nil {
+		c.undecided(rule, fi.Name, "lock analysis", c.P.pos(fi.Decl.Pos()), "function not analysed")
+		return
+	}
+	cur := c.P.Field("server", "Server", "curElecID")
+	// the comparison call and where its "existing id" argument comes from
+	var cmpArgLoadedHere, cmpFound bool
+	var cmpHeldW bool
+	allInstrs(fi.SSA, false, func(_ *ssa.Function, _ *ssa.BasicBlock, in ssa.Instruction) {
+		call, ok := in.(*ssa.Call)
+		if !ok {
+			return
+		}
+		cf := calleeFunc(call)
+		if cf == nil || cf.Name() != "isNewMaster" || len(call.Call.Args) != 2 {
+			return
+		}
+		cmpFound = true
+		if isLoadOfField(call.Call.Args[1], cur) {
+			cmpArgLoadedHere = true
+			// lockset at the load
+			for _, a := range fl.accesses {
+				if a.pos == call.Call.Args[1].Pos() || (a.guard != nil && a.guard.Field == "curElecID" && !a.write) {
+					if m, ok := a.held[a.lock]; ok && m == modeW {
+						cmpHeldW = true
+					}
+				}
+			}
+		}
+	})
+	nAcq := 0
+	for _, a := range fl.acqs {
+		if a.class == "Server.elecMu" {
+			nAcq++
+		}
+	}
+	storesW := true
+	nStores := 0
+	for _, a := range fl.accesses {
+		if a.write && a.guard != nil && a.guard.Lock == "elecMu" {
+			nStores++
+			if m, ok := a.held[a.lock]; !ok || m != modeW {
+				storesW = false
+			}
+		}
+	}
+	c.Sites += nStores + 1
+	switch {
+	case !cmpFound:
+		c.vanished(rule, fi.Name, "comparison", "runElection does not call isNewMaster")
+	case !cmpArgLoadedHere:
+		c.fail(rule, fi.Name, "read-compare-write in one exclusive section", c.P.pos(fi.Decl.Pos()), "the current election id handed to the comparison is not loaded inside runElection's own lock section (a snapshot taken under another acquisition): two concurrent announcements can both pass the comparison and the lower id can be written last")
+	case !cmpHeldW || !storesW || nAcq != 1 || nStores < 2:
+		c.fail(rule, fi.Name, "read-compare-write in one exclusive section", c.P.pos(fi.Decl.Pos()), fmt.Sprintf("the comparison's read (exclusive=%v) and the %d stores (exclusive=%v) are not covered by exactly one exclusive acquisition of elecMu (acquisitions: %d)", cmpHeldW, nStores, storesW, nAcq))
+	default:
+		c.ok(rule, fi.Name, "read-compare-write in one exclusive section", c.P.pos(fi.Decl.Pos()), fmt.Sprintf("load of curElecID for the comparison and %d stores under one exclusive acquisition", nStores))
+	}
 }
